@@ -46,10 +46,10 @@ type scState struct {
 }
 
 type scenario struct {
-	name   string
-	expr   string
-	build  func() (*scState, []func() interface{})
-	nThr   int
+	name  string
+	expr  string
+	build func() (*scState, []func() interface{})
+	nThr  int
 }
 
 func jdoc(i int) interface{} { return spare(univJ(concDocs[i%len(concDocs)])) }
